@@ -690,7 +690,10 @@ pub fn validate(spec: &Spec) -> Result<Vec<BTreeMap<String, usize>>, String> {
 
 /// Tolerant analysis of one `(pattern template)` pair that need not be valid:
 /// variables with their ellipsis depth (first occurrence wins).
-pub fn loose_pattern_vars(spec: &Spec, p: &Sx, depth: usize, top: bool, vars: &mut BTreeMap<String, usize>) {
+pub fn loose_pattern_vars(spec: &Spec, p: &Sx, depth: usize, top: bool, skip_vectors: bool, vars: &mut BTreeMap<String, usize>) {
+    if skip_vectors && matches!(p, Sx::Vector(_)) {
+        return;
+    }
     match p {
         Sx::Sym(s) => {
             if s != "_" && !spec.is_literal(s) && *s != spec.ellipsis {
@@ -708,10 +711,10 @@ pub fn loose_pattern_vars(spec: &Spec, p: &Sx, depth: usize, top: bool, vars: &m
                     continue;
                 }
                 let followed = i + 1 < items.len() && spec.is_ellipsis(&items[i + 1]);
-                loose_pattern_vars(spec, &items[i], depth + followed as usize, false, vars);
+                loose_pattern_vars(spec, &items[i], depth + followed as usize, false, skip_vectors, vars);
             }
             if let Some(t) = tail {
-                loose_pattern_vars(spec, t, depth, false, vars);
+                loose_pattern_vars(spec, t, depth, false, skip_vectors, vars);
             }
         }
         _ => {}
@@ -920,6 +923,18 @@ fn tf(spec: &Spec, t: &Sx, vars: &BTreeMap<String, usize>, level: usize, f: &mut
                     if all_novec.len() > outside.len() {
                         f.nested_ellipsis = true;
                     }
+                    // a variable that also occurs under a nested ellipsis of the same subtemplate is
+                    // rewound by that inner ellipsis each time round: it cannot end the outer one
+                    let mut nested_occ = all_novec.clone();
+                    for v in &outside {
+                        if let Some(p) = nested_occ.iter().position(|w| w == v) {
+                            nested_occ.remove(p);
+                        }
+                    }
+                    let drivers: Vec<&String> = outside.iter().filter(|v| !nested_occ.contains(v)).collect();
+                    if drivers.is_empty() && !outside.is_empty() {
+                        f.undriven.push("variable-also-under-nested-ellipsis".to_string());
+                    }
                     if outside.is_empty() {
                         let kind = match sub {
                             Sx::Sym(s) if vars.contains_key(s) => "depth0-variable",
@@ -990,12 +1005,26 @@ pub fn template_features(spec: &Spec, t: &Sx, vars: &BTreeMap<String, usize>) ->
 /// subtemplate cannot run out: KNOWN_FINDINGS `C17|nonterm|...`). Computed
 /// from the definition alone, for any rule; None = no such shape.
 pub fn known_hang_feature(spec: &Spec) -> Option<String> {
+    // the SUT takes the ellipsis identifier as the ellipsis even where it is listed as a literal
+    let mut unlit = spec.clone();
+    unlit.literals.retain(|l| *l != spec.ellipsis);
+    let spec = &unlit;
     for r in &spec.rules {
         let mut vars = BTreeMap::new();
-        loose_pattern_vars(spec, &r.pattern, 0, true, &mut vars);
+        loose_pattern_vars(spec, &r.pattern, 0, true, false, &mut vars);
         let f = template_features(spec, &r.template, &vars);
         if let Some(k) = f.undriven.iter().find(|k| k.as_str() != "symbol") {
             return Some(format!("template:ellipsis-after-{}", k));
+        }
+        // the SUT does not bind variables inside vector patterns: an ellipsis that is driven
+        // only by such variables cannot run out either
+        let mut vars2 = BTreeMap::new();
+        loose_pattern_vars(spec, &r.pattern, 0, true, true, &mut vars2);
+        if vars2.len() != vars.len() {
+            let f2 = template_features(spec, &r.template, &vars2);
+            if f2.undriven.iter().any(|k| k.as_str() != "symbol") {
+                return Some("template:ellipsis-driven-by-vector-pattern-variables".to_string());
+            }
         }
     }
     None
